@@ -96,7 +96,7 @@ SplitIn(a, k, i, j) == [a EXCEPT !.srv.es[k].es = SplitRun(@, i, j, Len(a.files)
 SplitFile(a, f, i, j) == [a EXCEPT !.files[f] = SplitRun(@, i, j, Len(a.files) + 1),        \* inside include file f
                                    !.files = Append(@, SubSeq(a.files[f], i, j))]
 Runs(n) == { r \in (1..n) \X (1..n) : r[1] <= r[2] }
-SmallAst == Ast(RootOf(1, ScalarRoot({2, 8, 9, 11}, Base12), <<<<2, 2>>, <<5, 1>>>>, << <<<<6, 1>>, <<8, 1>>>> >>), <<>>, NoBl)
+SmallAst == Ast(RootOf(1, ScalarRoot({2, 3, 8, 9, 11}, Base12), <<<<2, 2>>, <<5, 1>>>>, << <<<<6, 1>>, <<8, 1>>>> >>), <<>>, NoBl)
 FamIncludes(a) ==
   { Plain(SplitRoot(a, r[1], r[2])) : r \in Runs(Len(a.srv.es)) }
   \cup UNION { { Plain(SplitIn(a, k, r[1], r[2])) : r \in Runs(Len(a.srv.es[k].es)) } :
@@ -163,7 +163,7 @@ LemPermute ==
                  /\ Meaning([ast EXCEPT !.srv.es = MoveToEnd(es, i)]) = m
                  /\ Meaning([ast EXCEPT !.srv.es = MoveToFront(es, i)]) = m
            /\ \A k \in { k \in 1..Len(es) : IsSection(es[k]) /\ es[k].es # <<>> } :
-                 \/ es[k].es[1].t = "route"
+                 \/ ~IsScalarEntry(es[k].es[1])        \* routes, hosts and includes (which may hold routes) keep their place
                  \/ Meaning([ast EXCEPT !.srv.es[k].es = MoveToEnd(@, 1)]) = m
 \* moving any run of entries into an included file is irrelevant
 LemSplit ==
@@ -192,7 +192,7 @@ LemDefaults ==
                  LET m2 == Meaning([ast EXCEPT !.srv.es = DropAt(@, <<i>>)]) IN
                  m2.ok /\ m2.cfg = [m.cfg EXCEPT ![es[i].k] = DefaultOf[es[i].k]]
            /\ \A k \in { k \in 1..Len(es) : es[k].t = "sec" /\ es[k].k \in {"blacklist", "log", "cache"} } :
-                 \A i \in 1..Len(es[k].es) :
+                 \A i \in { i \in 1..Len(es[k].es) : es[k].es[i].t = "key" } :
                     LET m2 == Meaning([ast EXCEPT !.srv.es = DropAt(@, <<k, i>>)])
                         fld == FieldOf(es[k].k, es[k].es[i].k) IN
                     m2.ok /\ m2.cfg = [m.cfg EXCEPT ![fld] = DefaultOf[fld]]
